@@ -132,6 +132,8 @@ class UnsignedByteField:
 
     @classmethod
     def from_bytes(cls, raw: bytes):
+        if len(raw) == 0:
+            return cls(0, 0)
         return cls(
             struct.unpack(IntByteConversion.unsigned_struct_specifier(len(raw)), raw)[
                 0
